@@ -106,7 +106,7 @@ def answerSpe (fs : List (String × String)) : String :=
       let y0A : Array (Array Rat) :=
         if full then (y0.map List.toArray).toArray else Array.replicate N (Array.replicate d 0)
       let inp : Spe.Input Rat :=
-        { N := N, d := d, inPlace := Gen.spePartnersInPlace, global := global, nb := nb, nupReq := nup, maxIterReq := T, tol := tol,
+        { N := N, d := d, inPlace := Gen.spePartnersInPlace, zeroGuard := Gen.speAlphaZeroGuard, global := global, nb := nb, nupReq := nup, maxIterReq := T, tol := tol,
           dist := fun a b => dmA.getD (a * N + b) 0,
           y0 := y0A, shuffle := fun t => permsA.getD t [], unif := fun c => unifA.getD c 0,
           sqrtO := if full then sqrtR else fun _ => 0, floorO := Rat.floor, fl004 := fl004 N }
